@@ -6,32 +6,40 @@ namespace Yaclib.Shared
 structure InvR (s : State) : Prop where
   /-- every reference is accounted for: the promise's, the threads', the executor jobs', the When-style callbacks' -/
   cnt : s.count = promRefs s.fpc + s.holders + s.jobs.length + s.jobsRun.length
-          + retCnt (wordList s.word) + retCnt (walkList s.fpc)
+          + retCnt (wordList s.word) + retCnt (walkList s.fpc) + s.rets.length + s.retsLd.length
   freed_eq : s.freed = if s.count = 0 then 1 else 0
   /-- what the fulfiller's `GetRef()` returned -/
   f_refd : ∀ c rest d n, s.fpc = .walk (c :: rest) d (.refd n) →
-    2 ≤ n ∧ (c.kind = .retire → 3 ≤ n) ∧ (n = 2 → s.count = 2)
+    2 ≤ n ∧ (n = 2 → s.count = 2)
   /-- `if (ref == 1) caller.DecRef()` of ResultCore::Impl is never taken when the caller is a shared core -/
   f_post : ∀ l d, s.fpc ≠ .walk l d .post
-  /-- what an observer's `GetRef()` returned (Retire on the inline path / Get()&&) -/
-  o_refd : ∀ t c n, (s.obs t).pc = .run c (.refd n) → 1 ≤ n ∧ (n = 1 → s.count = 1)
+  /-- what the `GetRef()` of a pending Retire() returned / what an observer's `GetRef()` returned (Get()&&) -/
+  ld_refd : ∀ c n, (c, n) ∈ s.retsLd → 1 ≤ n ∧ (n = 1 → s.count = 1)
   o_got : ∀ t n, (s.obs t).pc = .gotRef n → 1 ≤ n ∧ (n = 1 → s.count = 1)
   /-- after a move-out nothing is left that could read the value -/
   moved : s.movedOut = true →
-    (∀ l d st, s.fpc ≠ .walk l d st) ∧ s.fpc ≠ .start ∧ s.jobs = [] ∧ s.jobsRun = [] ∧ s.holders ≤ 1
+    (∀ l d st, s.fpc ≠ .walk l d st) ∧ s.fpc ≠ .start ∧ s.jobs = [] ∧ s.jobsRun = [] ∧ s.holders ≤ 1 ∧
+    s.rets = [] ∧ s.retsLd = []
   moved_obs : ∀ t, s.movedOut = true → 0 < (s.obs t).refs → (s.obs t).pc = .idle ∧ (s.obs t).todo.head? = some .drop
 
 theorem invR_init (w : Workload) : InvR (init w) := by
   constructor <;> simp [init, promiseRefs, wordList, walkList]
 
-theorem nil_or_length_pos (l : List Cb) : l = [] ∨ 0 < l.length := by
+theorem nil_or_length_pos {α : Type} (l : List α) : l = [] ∨ 0 < l.length := by
   cases l <;> simp
 
 grind_pattern nil_or_length_pos => l.length
 
+theorem erase_nil_or_two_le {α : Type} [BEq α] [LawfulBEq α] {l : List α} {a : α} (h : a ∈ l) :
+    l.erase a = [] ∨ 2 ≤ l.length := by
+  have h1 := List.length_erase_of_mem h
+  rcases nil_or_length_pos (l.erase a) with h2 | h2
+  · exact Or.inl h2
+  · right; omega
+
 macro "invR_auto" : tactic => `(tactic| (constructor <;> sh_unfold' <;>
   grind [isReadyOp, opKind, = retCnt_cons, = retCnt_nil, = promRefs_start, = promRefs_walk, = promRefs_dec,
-    = List.length_erase_of_mem,
+    = List.length_erase_of_mem, → List.mem_of_mem_erase,
     = wordList_list, = wordList_result, = walkList_walk, = walkList_start, = walkList_dec]))
 
 end Yaclib.Shared
